@@ -65,7 +65,8 @@ PRELUDE = ("From NV Require Import Place.Policer Place.PolicerCheck.\n"
 def evaluate(ctx, cases, fx="true"):
     """returns (bad_model, bad_ref) index sets, or None when coqc failed"""
     bad_model, bad_ref = set(), set()
-    CH = 500
+    # coqc start-up is expensive here: at most one job per core
+    CH = max(100, min(900, -(-len(cases) // vlib.NCPU)))
     jobs, offs = [], []
     for off in range(0, len(cases), CH):
         lit = vlib.coq_list(cases[off:off + CH], coq_case)
